@@ -99,6 +99,9 @@ type memIndex struct {
 	hasLast bool
 	FailAt  int // fail the n-th UpdateLastAccepted (1-based); 0 = never
 	updates int
+	// IO, if set, is called when a write starts: the write is an I/O operation during which other
+	// threads run (a scheduling point of the simulator)
+	IO func(height uint64)
 }
 
 func newMemIndex() *memIndex {
@@ -108,6 +111,9 @@ func newMemIndex() *memIndex {
 var errIndexFault = errors.New("injected chain index write error")
 
 func (m *memIndex) UpdateLastAccepted(_ context.Context, b *TBlock) error {
+	if m.IO != nil {
+		m.IO(b.Hght)
+	}
 	m.mu.Lock()
 	defer m.mu.Unlock()
 	m.updates++
@@ -183,6 +189,9 @@ type TChain struct {
 	VM       *snow.VM[*TBlock, *TOut, *TAcc]
 	GenOut   *TOut
 	GenAcc   *TAcc
+	// IO, if set, is called when the chain starts executing a block (execution takes time: a
+	// scheduling point of the simulator)
+	IO func(what string, height uint64)
 }
 
 func (c *TChain) Initialize(ctx context.Context, _ snow.ChainInput, vm *snow.VM[*TBlock, *TOut, *TAcc]) (snow.ChainIndex[*TBlock], *TOut, *TAcc, bool, error) {
@@ -214,6 +223,9 @@ func (*TChain) ParseBlock(_ context.Context, b []byte) (*TBlock, error) { return
 var errInvalidTBlock = errors.New("test block is marked invalid")
 
 func (c *TChain) VerifyBlock(_ context.Context, parent *TOut, b *TBlock) (*TOut, error) {
+	if c.IO != nil {
+		c.IO("chain.verify", b.Hght)
+	}
 	c.mu.Lock()
 	defer c.mu.Unlock()
 	call := chainCall{Kind: "verify", Blk: b.id, Height: b.Hght, ParentOut: parent}
